@@ -70,16 +70,17 @@ def expected(data, orc):
 
 def line_menu(thorough):
     L = [b'', b' ', b'  ', b'\t', b'#c', b' #c', b'simple@test.com', b'bad..dots@test.com', b' lead@test.com', b'trail@test.com ', b'trail@test.com\t',
-         'ж@почта.рф'.encode(), b'a\xff@b.com', b'a\xd0', b'a\rb@c.com', b'a\x01b@c.com', b'x@[1.2.3.4]']
+         'ж@почта.рф'.encode(), b'a\xff@b.com', b'a\xd0', b'a\rb@c.com', b'a\x01b@c.com', b'x@[1.2.3.4]',
+         b'\xef\xbb\xbfbom@test.com', b'\xef\xbb\xbf#bom@test.com', b'\xef\xbb\xbf bom@test.com', b'\xef\xbb\xbf']     # U+FEFF is an ordinary character for the library: nothing may be stripped
     longs = []
     for n in (1023, 1024, 2047, 2048, 2049, 8192):
         longs.append(b'a' * (n - 9) + b'@test.com')
         longs.append('ж'.encode() * ((n - 9) // 2) + (b'a' if (n - 9) % 2 else b'') + b'@test.com')
     longs.append(b'a' * 2046 + 'ж'.encode() + b'@t.co')      # multi-byte character straddling 2048
-    if thorough: L += [b'\xef\xbb\xbfbom@test.com', b'"q r"@test.com', b'a@b', b'#', b'a\x7f@b.com', b'\xe2\x99\xa5@x.de', b'a@example.com', b' ', b'\t\t']
+    if thorough: L += [b'"q r"@test.com', b'a@b', b'#', b'a\x7f@b.com', b'\xe2\x99\xa5@x.de', b'a@example.com', b' ', b'\t\t']
     return L, longs
 
-def run(bdir, tier, known_ids, deadline):
+def run(bdir, tier, known_ids, deadline, only_utf8=False):
     t0 = time.time(); thorough = tier == 'thorough'
     exe, plain = build(bdir)
     orc = Oracle(plain)
@@ -112,6 +113,13 @@ def run(bdir, tier, known_ids, deadline):
                     body = (lead * ((n - 9) // len(lead)) + b'a' * ((n - 9) % len(lead)) + b'@test.com')
                     files.append(body + t + b'ok@test.com' + t)
                     files.append(body + t + b'#c' + t + b'bad..x@test.com')
+    # many lines in one file (verdict order and count at scale: every menu line 300 times, terminators alternating), and lines of 64 KiB / 1 MiB
+    files.append(b''.join(L[i % len(L)] + terms[(i // len(L)) % 2] for i in range(300 * len(L))))
+    files.append(b''.join((b'#c%d' % i if i % 3 == 0 else b'u%d@test.com' % i if i % 3 == 1 else b'bad..%d@test.com' % i) + terms[i % 2] for i in range(6000)))
+    for n in (65535, 65536, 65537, 1 << 20):
+        for lead in (b'a', 'ж'.encode(), '中'.encode()):
+            body = lead * ((n - 9) // len(lead)) + b'a' * ((n - 9) % len(lead)) + b'@test.com'
+            files.append(body + b'\n' + b'ok@test.com\n'); files.append(b'ok@test.com\r\n' + body)
     # a 2-, 3- or 4-byte character whose lead byte sits 0..w+1 bytes before each multiple of a power of two, on lines longer than that
     # (a tool that reads, sanitizes or prints in fixed-size pieces cuts a character there); the line must still be echoed byte for byte
     for B in (256, 512, 1024, 2048, 4096, 8192):
@@ -132,6 +140,17 @@ def run(bdir, tier, known_ids, deadline):
     four = [bytes([a, b, c, d]) for a in (0xf0, 0xf1, 0xf3, 0xf4, 0xf5, 0xf8) for b in (0x7f, 0x80, 0x8f, 0x90, 0xbf, 0xc0) for c in (0x80, 0xbf, 0x41) for d in (0x80, 0xbf, 0x41)]
     for seqs in (two, three, four):
         files.append(utf8_file(seqs, b'a%sb@test.com')); files.append(utf8_file(seqs, b'"%s"@test.com')); files.append(utf8_file(seqs, b'x@%s.com'))
+    if only_utf8:
+        # C03 through the shipped tool (which links its own copy of the decoder in front of the library's): only the UTF-8 strictness files, plus
+        # every lead byte x every second byte, and the edges of every range of Table 3-7 with all third / fourth bytes
+        nfix = 9
+        files = files[-nfix:]
+        lead2 = [bytes([a, b]) + bytes(c) for a in range(0x80, 0x100) for b in range(0x01, 0x100) if b not in (0x0a, 0x0d) for c in ([0x80], [0x80, 0x80], [])]
+        edges = [bytes([a, b, c, d]) for (a, bs) in ((0xe0, (0x9f, 0xa0)), (0xed, (0x9f, 0xa0)), (0xef, (0xbf,)), (0xf0, (0x8f, 0x90)), (0xf4, (0x8f, 0x90)), (0xf1, (0x80, 0xbf)), (0xf5, (0x80,)))
+                 for b in bs for c in range(0x7f, 0xc1) for d in (0x7f, 0x80, 0xbf, 0xc0)]
+        for seqs in (lead2, edges):
+            for k in range(0, len(seqs), 4000):
+                files.append(utf8_file(seqs[k:k + 4000], b'a%sb@test.com')); files.append(utf8_file(seqs[k:k + 4000], b'"%s"@test.com'))
     seen = set(); uniq = []
     for f in files:
         if f not in seen: seen.add(f); uniq.append(f)
@@ -192,3 +211,7 @@ def replay(bdir, path):
     p = subprocess.run([exe, f], env=env)
     print('exit status', p.returncode)
     return 1 if p.returncode != 0 else 0
+
+
+def run_utf8(bdir, tier, known_ids, deadline):
+    return run(bdir, tier, known_ids, deadline, only_utf8=True)
